@@ -97,7 +97,7 @@ TinyCheck(t) ==
         S     == t.scale
         bS    == BigMul(BigInt(t.b), S)
         lev   == t.out - lo
-        fake  == FakeLevel(acc, t.b, t.tm, t.te, t.ob)
+        fake  == FakeLevelBig(BigInt(acc + t.b), BigInt(t.tm), -t.te, t.ob)        \* unbounded integers (te up to 31)
         bound == ApproxFloorBig(BigInt(acc + t.b), S, t.shift, BigInt(t.tm), -t.te)
         zp(impl) == ZeroPointBig(impl, bS, S, t.shift, loIn, lo, BigInt(wsum))
         model    == IF mau THEN zp(CodeImpl) ELSE bS
